@@ -804,6 +804,8 @@ func checkC19(r *Report) {
 	nM := mapOrderRule(r, p, "C19.g/MAP-ORDER", cfs)
 	signSymmetryRule(r, p, "C19.g/SIGN-SYMMETRIC", cfs)
 	loopReturnRule(r, p, "C19.g/LOOP-NONZERO", cfs)
+	nEq := equalConjunctiveRule(r, loadResolve("", true), "C19.g/EQUAL-CONJUNCTIVE", "resolve", "resolve/dep", "resolve/version", "resolve/internal/attr")
+	r.floor("C19.g/EQUAL-CONJUNCTIVE", "Equal methods over versions, dependency types and attribute sets", nEq, 3)
 	r.floor("C19.g/MAP-ORDER", "three-way comparators of attr, dep and version", nM, 2)
 	// h. LOOP-SINGLE-STEP: the schema parsers look at every token. A nested
 	// loop that advances the outer loop's counter past the token it consumed
